@@ -2,7 +2,7 @@ import TracklibVerif.Model.ObsTime
 /-! Model of linear resampling: tracklib/algo/interpolation.py (`prepareTimeSampling`,
 `__resampleTemporal`, `__resampleSpatial`, the `resample` dispatcher for `ALGO_LINEAR`, `sample`,
 `synchronize`), the front end `Track.resample` and the operators `//`, `**`, `*` of tracklib/core/track.py,
-`TrackCollection.resample` and `TrackCollection.__floordiv__` of tracklib/core/track_collection.py.
+`TrackCollection.resample` and `TrackCollection.__floordiv__` (`collection // ref`) of tracklib/core/track_collection.py.
 
 Scalar-polymorphic (core Lean only): the driver instantiates `α := Rat` (exact streams) and
 `α := Float`; the proofs use an ordered field. A fix is `(x, y, z, t)` with `t = timestamp.toAbsTime()`
@@ -339,12 +339,12 @@ def collResample (sqrt : α → α) (trunc : α → Int) (g : α) (tracks : List
     (mode : Nat) (d : Step α) : Except Err (List (List (Fix α) × List String)) :=
   tracks.mapM (fun tr => resample sqrt trunc g tr.1 tr.2 ⟨mode, some d, none, 1⟩)
 
-/-- `collection // ref` (`TrackCollection.__floordiv__`): `t.resample(track)` on every track of a copy — WITHOUT
-`mode=MODE_TEMPORAL`, so the default spatial mode is given a Track as step: TypeError on the first track
-(IndexError when that track is empty). Only an empty collection comes back. -/
+/-- `collection // ref` (`TrackCollection.__floordiv__`): `t.resample(track, mode=2)` on every track of a copy of the
+collection, in order (since the fix commit ea8666e; before it the mode was left to its spatial default and the call
+raised TypeError). The collection itself is not modified. -/
 def collFloordiv (sqrt : α → α) (trunc : α → Int) (g : α) (tracks : List (List (Fix α) × List String))
     (Q : List (Fix α)) : Except Err (List (List (Fix α) × List String)) :=
-  tracks.mapM (fun tr => resample sqrt trunc g tr.1 tr.2 ⟨1, some (.track Q), none, 1⟩)
+  tracks.mapM (fun tr => resample sqrt trunc g tr.1 tr.2 ⟨2, some (.track Q), none, 1⟩)
 
 end
 
